@@ -12,7 +12,7 @@ LEVEL = "exploration"
 RULE = ("tick histories (1-12 ticks, one in ten 40-120 ticks; 0-5 readings per tick, bursts of 10-30; timestamps "
         "before/equal/after the held and the output time, duplicates, any order; the previous tick's reading "
         "objects handed over again; readings as list, tuple, generator or iterator; clocks starting at 0, +-1e2, "
-        "1e5, 3.2e7 and 1.7e9 s; with and without readings argument; with/without control and calibration).  log units: append-only log filter under the real Python runtime and under the real "
+        "1e5, 3.2e7 and 1.7e9 s; histories with single propagations of 1e4..3e4 steps to, and back from, a reading; with and without readings argument; with/without control and calibration).  log units: append-only log filter under the real Python runtime and under the real "
         "ManagedFilter.h (recording Impl, ASan/UBSan); each returned log must equal held log + [move, update]* + "
         "move-to-output with the updates in the order given, control/calibration forwarded, and the next tick must "
         "start from the log held after the last reading; Python and C++ call sequences are compared.  real units: a "
@@ -28,6 +28,9 @@ ASSUMPTIONS = [
 N = {"quick": {"cpp_log": 4, "py_log": 8, "real": 8}, "thorough": {"cpp_log": 16, "py_log": 100, "real": 120}}
 HIST = {"quick": {"cpp_log": 60, "py_log": 60, "real": 4}, "thorough": {"cpp_log": 400, "py_log": 300, "real": 10}}
 COMBOS = [(True, True), (True, False), (False, True), (False, False)]
+
+
+LONG_GAPS = {"quick": 2, "thorough": 6}
 
 
 def plan(tier, seed):
@@ -121,10 +124,10 @@ def nontrivial_history(ticks):
     return False
 
 
-def run_py_history(md, t0, ticks, has_ctl):
+def run_py_history(md, t0, ticks, has_ctl, rle=False):
     from formak.runtime import ManagedFilter, StampedReading
 
-    rec = rtmodel.RecFilter(md, control_size=1 if has_ctl else 0)
+    rec = (rtmodel.RecFilterRLE if rle else rtmodel.RecFilter)(md, control_size=1 if has_ctl else 0)
     mf = ManagedFilter(rec, t0, (), None)
     outs = []
     objs = {}
@@ -139,7 +142,8 @@ def run_py_history(md, t0, ticks, has_ctl):
             kw["readings"] = {"list": lambda: lst, "tuple": lambda: tuple(lst), "iter": lambda: iter(lst),
                               "generator": lambda: (r for r in lst)}[style]()
         try:
-            outs.append(tuple(mf.tick(out, **kw).state))
+            got_ = mf.tick(out, **kw).state
+            outs.append(tuple(rtmodel.RecFilterRLE.expand(got_)) if rle else tuple(got_))
         except TypeError:
             if style in ("generator", "iter") and rds is not None:
                 # a runtime that loudly refuses a one-shot iterator (readings is declared as a List) is not
@@ -186,6 +190,26 @@ def _py_log(R, rng, ctx):
         if not R.samples and nontrivial_history(ticks):
             R.samples.append({"runtime": "py", "max_dt": md, "t0": t0, "ticks": ticks[:3],
                               "returned_tick0": [list(e) for e in outs[0]][:10]})
+    # a filter resumed after a long pause: single propagations of 10^4..3*10^4 steps to a reading, back to an
+    # older reading and on to the output time (run-length-encoded log)
+    for li in range(LONG_GAPS[ctx["tier"]]):
+        md = rng.choice([0.1, 0.01, 0.05, 0.25])
+        t0 = rng.choice([0.0, 10.0, -5.0, 1000.0])
+        gap = rng.randint(10500, 30000)
+        has_ctl = li % 2 == 0
+        ticks = [(t0 + 3 * md, 1, [(t0 + 1.5 * md, 0, 1)]),
+                 (t0 + (gap + 0.3) * md, 2, [(t0 + 0.9 * gap * md, 1, 2), (t0 + 0.5 * gap * md, 2, 3)] if li % 3 else None),
+                 (t0 + (gap + 5) * md, 3, [(t0 + (gap + 2) * md, 0, 4)])]
+        try:
+            outs = run_py_history(md, t0, ticks, has_ctl, rle=True)
+        except Exception as e:  # noqa: BLE001
+            R.add([K.V(K.exc_key("py:tick", e), f"tick raised: {K.exc_text(e)}", max_dt=md, t0=t0, ticks=ticks,
+                       traceback=K.tb_text(e))])
+            continue
+        if outs is None:
+            continue
+        R.stats.inc("py_long_gap_histories")
+        check_history(R, "py", md, t0, ticks, outs, has_ctl, True, None)
     # a model with control inputs cannot be ticked without them
     for csize in (1, 2, 5):
         # (output time, reading timestamps): later output with/without readings, and ticks whose first (or
